@@ -1248,7 +1248,104 @@ def _is_d8(sub, case, msg):
     return sub == "graph_linear" and msg.startswith("disjoint rasters (same CRS, axis-parallel")
 
 
+# ----------------------------------------------------------------------------- global source, regional destination
+GLOBAL_DST = ["32633", "32755", "3577", "3035", "3857", "6933"]
+
+
+@st.composite
+def s_graph_global(draw):
+    """Source: a lon/lat raster much larger than the destination CRS's usable domain (global or hemispheric, a few
+    degrees per tile); destination: a regional raster in a projected CRS well inside its valid area."""
+    dlab = draw(st.sampled_from(GLOBAL_DST))
+    lo = CRS_POOL[dlab][1]
+    lon = draw(st.floats(lo[0] + 2, lo[2] - 2))
+    lat = draw(st.floats(max(lo[1] + 2, -70), min(lo[3] - 2, 70)))
+    px_deg = draw(st.sampled_from([0.25, 0.5, 1.0]))
+    extent = draw(st.sampled_from(["global", "global", "north_or_south", "lat85"]))
+    stile = draw(st.sampled_from([10, 20, 30, 45]))  # source tile, pixels
+    dres = draw(st.sampled_from([1000.0, 5000.0, 10000.0]))
+    dshape = [draw(st.integers(20, 60)), draw(st.integers(20, 60))]
+    dtile = draw(st.sampled_from([10, 16, 32, 64]))
+    return {"dlab": dlab, "lonlat": [lon, lat], "px_deg": px_deg, "extent": extent, "stile": stile, "dres": dres, "dshape": dshape, "dtile": dtile,
+            "sflip": draw(st.booleans())}
+
+
+def o_graph_global(case, T):
+    from affine import Affine
+    from odc.geo.geobox import GeoBox, GeoboxTiles
+    from pyproj import Transformer
+    from shapely import geometry as G
+
+    px = case["px_deg"]
+    lon, lat = case["lonlat"]
+    if case["extent"] == "global":
+        y0, y1 = -90.0, 90.0
+    elif case["extent"] == "lat85":
+        y0, y1 = -85.0, 85.0
+    else:
+        y0, y1 = (0.0, 90.0) if lat >= 0 else (-90.0, 0.0)
+        if not (y0 + 5 < lat < y1 - 5):
+            T.exclude("destination_near_equator_for_hemispheric_source")
+            return
+    nx, ny = int(round(360 / px)), int(round((y1 - y0) / px))
+    if case["sflip"]:
+        As = Affine(px, 0, -180.0, 0, px, y0)
+    else:
+        As = Affine(px, 0, -180.0, 0, -px, y1)
+    src = GeoBox((ny, nx), As, 4326)
+    dlab = case["dlab"]
+    x, y = Transformer.from_crs(4326, int(dlab), always_xy=True).transform(lon, lat)
+    dres = case["dres"]
+    Hd, Wd = case["dshape"]
+    Ad = Affine(dres, 0, round(x / dres) * dres - dres * Wd / 2, 0, -dres, round(y / dres) * dres + dres * Hd / 2)
+    dst = GeoBox((Hd, Wd), Ad, int(dlab))
+    st_, dt_ = case["stile"], case["dtile"]
+    gs, gd = GeoboxTiles(src, (st_, st_)), GeoboxTiles(dst, (dt_, dt_))
+    res = gd.grid_intersect(gs)
+    require(isinstance(res, dict), "grid_intersect returned %r", type(res))
+    tr = Transformer.from_crs(int(dlab), 4326, always_xy=True)
+    iAs = ~As
+    nreq = 0
+    for (r, c) in np.ndindex(*gd.shape.shape):
+        ry, rx = gd.roi[r, c]
+        # dense ring of the destination tile, eroded by 5% so that only solid overlaps are demanded
+        ex, ey = 0.05 * (rx.stop - rx.start), 0.05 * (ry.stop - ry.start)
+        ring = []
+        k = 8
+        xs = np.linspace(rx.start + ex, rx.stop - ex, k)
+        ys = np.linspace(ry.start + ey, ry.stop - ey, k)
+        ring += [(xx, ys[0]) for xx in xs] + [(xs[-1], yy) for yy in ys] + [(xx, ys[-1]) for xx in xs[::-1]] + [(xs[0], yy) for yy in ys[::-1]]
+        wx, wy = zip(*[Ad * p for p in ring])
+        lo, la = tr.transform(list(wx), list(wy))
+        if not all(math.isfinite(v) for v in list(lo) + list(la)):
+            T.exclude("destination_tile_does_not_project")
+            continue
+        if max(lo) - min(lo) > 180:
+            T.exclude("destination_tile_crosses_antimeridian")
+            continue
+        sp = [iAs * p for p in zip(lo, la)]  # source pixel coordinates
+        poly = G.Polygon(sp)
+        if not poly.is_valid or poly.area <= 0:
+            T.exclude("degenerate_projected_tile")
+            continue
+        have = set(map(tuple, res.get((r, c), [])))
+        minx, miny, maxx, maxy = poly.bounds
+        for sr in range(max(0, int(miny // st_)), min(gs.shape.y, int(maxy // st_) + 1)):
+            for sc in range(max(0, int(minx // st_)), min(gs.shape.x, int(maxx // st_) + 1)):
+                sb = G.box(sc * st_, sr * st_, min((sc + 1) * st_, nx), min((sr + 1) * st_, ny))
+                a = poly.intersection(sb).area
+                if a >= 0.02 * poly.area and a >= 0.01 * sb.area * 0 + 1e-9:
+                    nreq += 1
+                    if (sr, sc) not in have:
+                        raise Violation(f"destination tile {(r, c)} (EPSG:{dlab}) overlaps source tile {(sr, sc)} of the {case['extent']} lon/lat raster by {a / poly.area:.0%} of its area, but the edge is missing (listed sources: {sorted(have)[:6]}, graph has {len(res)} destination tiles)")
+    if nreq:
+        T.nontrivial()
+    T.cls("dst:" + dlab)
+    T.cls("extent:" + case["extent"])
+
+
 def build(chk: Check) -> None:
+    chk.sub("graph_global_src", o_graph_global, strategy=s_graph_global(), n={"quick": 150, "thorough": 6000}, budget_s={"quick": 60, "thorough": 150}, shrink=False)
     chk.sub("query_geom_same", o_geom_same, strategy=s_geom_same(), n={"quick": 1600, "thorough": 80000}, budget_s={"quick": 60, "thorough": 140})
     chk.sub("query_bbox_same", o_bbox_same, strategy=s_bbox_same(), n={"quick": 1000, "thorough": 50000}, budget_s={"quick": 60, "thorough": 110})
     chk.sub("query_other_crs", o_query_other, strategy=s_query_other(), n={"quick": 1400, "thorough": 70000}, budget_s={"quick": 60, "thorough": 140})
